@@ -17,7 +17,7 @@ MANIFEST = {
           'tag sets violating the tag rules must be rejected in both syntaxes and stored/relayed byte-identical.',
   'note': 'OpenMetrics renderings are only produced for tag sets OpenMetrics can express (identifier-like label names, '
           'metric names without braces/quotes/semicolons). The reference acceptance rule is written from the tag '
-          'rules in the statement, not from the parser.',
+          'rules in the statement, not from the parser. Also: OpenMetrics token sequences with ill-formed pairs, names of 400-5000 characters, case-only tag pairs.',
 }
 
 PROHIBITED_TAG_CHARS = ';!^='
